@@ -6,6 +6,7 @@ import (
 	"fmt"
 	"os"
 	"path/filepath"
+	"sort"
 	"strings"
 	"testing"
 	"time"
@@ -182,6 +183,35 @@ func downgrade(t *rapid.T, f M, version string) []string {
 			}
 		}
 	}
+	if vLess(version, "13.3.0") {
+		// @webhook references in translations, whether or not the base-language value has one
+		if loc, ok := f["localization"].(M); ok {
+			langs := make([]string, 0, len(loc))
+			for l := range loc {
+				langs = append(langs, l)
+			}
+			sort.Strings(langs)
+			for _, l := range langs {
+				items, _ := loc[l].(M)
+				uuids := make([]string, 0, len(items))
+				for u := range items {
+					uuids = append(uuids, u)
+				}
+				sort.Strings(uuids)
+				for _, u := range uuids {
+					item, _ := items[u].(M)
+					for _, prop := range []string{"text", "quick_replies", "arguments"} {
+						if vals, ok := item[prop].([]string); ok && len(vals) > 0 && rapid.IntRange(0, 3).Draw(t, "webhooktranslation") == 0 {
+							nv := append([]string{}, vals...)
+							nv[0] = nv[0] + rapid.SampledFrom([]string{" @webhook.name", " @(webhook.items[0])", " @webhook"}).Draw(t, "whtr")
+							item[prop] = nv
+							feats = append(feats, "webhook-ref-in-translation")
+						}
+					}
+				}
+			}
+		}
+	}
 	if vLess(version, "13.2.0") && rapid.IntRange(0, 1).Draw(t, "baselang") == 0 {
 		f["language"] = rapid.SampledFrom([]string{"base", "", "en"}).Draw(t, "lang")
 		feats = append(feats, "language-fix")
@@ -339,9 +369,21 @@ func webhookRelation(orig, migrated []byte) *harn.Failure {
 				Actions []map[string]any `json:"actions"`
 				Router  map[string]any   `json:"router"`
 			} `json:"nodes"`
+			Localization map[string]map[string]map[string][]any `json:"localization"`
 		}
 		_ = json.Unmarshal(data, &f)
 		out := map[string]string{}
+		for lang, items := range f.Localization {
+			for uuid, item := range items {
+				for _, prop := range []string{"text", "quick_replies", "arguments"} {
+					for i, v := range item[prop] {
+						if sv, ok := v.(string); ok {
+							out[fmt.Sprintf("localization/%s/%s/%s/%d", lang, uuid, prop, i)] = sv
+						}
+					}
+				}
+			}
+		}
 		for _, n := range f.Nodes {
 			for _, a := range n.Actions {
 				for _, key := range []string{"text", "value", "name", "body", "url"} {
